@@ -30,7 +30,7 @@ type HTTPPCS struct {
 
 	mu   sync.Mutex
 	resp map[string]world.Resp
-	Mode string // "content-length" | "chunked" | "gzip" | "pieces" | "pieces-chunked"
+	Mode string // "content-length" | "chunked" | "gzip" | "pieces" | "pieces-chunked" | "declares-8-EiB" | "declares-3-GiB" | "declares-one-more" | "declares-one-less-gzip"
 	// Script, when set for a URL, is consumed one entry per request before the scripted response is served: an HTTP status
 	// with an optional Retry-After value ("429:3", "503:", "502").
 	Script map[string][]string
@@ -207,6 +207,21 @@ func (p *HTTPPCS) serve(w http.ResponseWriter, r *http.Request) {
 			}
 			time.Sleep(200 * time.Microsecond)
 		}
+	case "declares-8-EiB", "declares-3-GiB", "declares-one-more", "declares-one-less-gzip":
+		// a response that announces more than it sends (the connection ends early); HTTP/2 servers refuse to send such a
+		// response, there the client sees a stream error instead
+		switch mode {
+		case "declares-8-EiB":
+			w.Header().Set("Content-Length", "9223372036854775807")
+		case "declares-3-GiB":
+			w.Header().Set("Content-Length", "3221225472")
+		case "declares-one-more":
+			w.Header().Set("Content-Length", strconv.Itoa(len(body)+1))
+		default:
+			w.Header().Set("Content-Encoding", "gzip")
+			w.Header().Set("Content-Length", strconv.Itoa(len(body)+1))
+		}
+		_, _ = w.Write(body)
 	default:
 		w.Header().Set("Content-Length", strconv.Itoa(len(body)))
 		_, _ = w.Write(body)
